@@ -317,6 +317,24 @@ func monC17(c *drv.Ctx) {
 		c17Skip(cs, bad, kind)
 		cs.Count(true, "deep", cs.Idx)
 	})
+	// (4b) nesting 58..70 entered through every position, incl. map keys
+	c.Stage("deep-paths", int64(len(gen.NestPaths))*13*2, true, func(cs *drv.Case) {
+		i := cs.Idx
+		depth := 58 + int(i%13)
+		path := gen.NestPaths[(i/13)%int64(len(gen.NestPaths))]
+		b, top := gen.NestedPath(path, depth, i/(13*int64(len(gen.NestPaths))) == 1)
+		cs.Desc = M{"path": path, "depth": depth, "input_hex": hexOf(b)}
+		c17Skip(cs, b, top)
+		c17Skip(cs, b[:len(b)-1], top)
+		// a negative size right at the innermost level
+		bad := append([]byte(nil), b...)
+		if len(bad) > 8 {
+			bad[len(bad)/2] = 0x80
+			c17Skip(cs, bad, top)
+		}
+		cs.Count(true, "deeppath", i)
+	})
+
 	// (5) stream reader: every cut position x every injected error value
 	c.Stage("source-errors", c.Pick(20000, 300000), false, func(cs *drv.Case) {
 		r := cs.R
